@@ -478,17 +478,17 @@ Proof.
   destruct (sym_q pl k s); [apply rstep_refl | apply rstep_tokens_insert ..].
 Qed.
 
-Lemma rstep_prod_eff : forall fa pl rn off p a, rstep a (prod_eff fa pl rn off p a).
+Lemma rstep_prod_eff : forall fa fp pl rn off p a, rstep a (prod_eff fa fp pl rn off p a).
 Proof.
-  intros fa pl rn off p a. unfold prod_eff. cbv zeta.
+  intros fa fp pl rn off p a. unfold prod_eff. cbv zeta.
   eapply rstep_trans; [|apply rstep_add_prod_t].
   eapply rstep_trans; [apply (rstep_syms_ins pl (ap_syms p) 0 (prod_o0 pl off p) a)|].
   destruct (ap_prec p); [apply rstep_tokens_insert | apply rstep_refl].
 Qed.
 
-Lemma rstep_prods_eff : forall fa rl rn ps pi off a, rstep a (prods_eff fa rl rn pi off ps a).
+Lemma rstep_prods_eff : forall fa fp rl rn ps pi off a, rstep a (prods_eff fa fp rl rn pi off ps a).
 Proof.
-  intros fa rl rn ps. induction ps as [|p ps IH]; intros pi off a; cbn [prods_eff]; [apply rstep_refl|].
+  intros fa fp rl rn ps. induction ps as [|p ps IH]; intros pi off a; cbn [prods_eff]; [apply rstep_refl|].
   eapply rstep_trans; [apply rstep_prod_eff | apply IH].
 Qed.
 
@@ -524,41 +524,41 @@ Proof.
   - intros m H. rewrite Hp. exact H.
 Qed.
 
-Lemma rstep_rule_eff : forall fa rl off at_ r a, rstep a (rule_eff fa rl off at_ r a).
+Lemma rstep_rule_eff : forall fa fp rl off at_ r a, rstep a (rule_eff fa fp rl off at_ r a).
 Proof.
   intros. unfold rule_eff. eapply rstep_trans; [apply rstep_rule_head | apply rstep_prods_eff].
 Qed.
 
-Lemma rstep_rules_eff : forall fa l rs r off at_ a, rstep a (rules_eff fa l r off at_ rs a).
+Lemma rstep_rules_eff : forall fa fp l rs r off at_ a, rstep a (rules_eff fa fp l r off at_ rs a).
 Proof.
-  intros fa l rs. induction rs as [|x rs IH]; intros r off at_ a; cbn [rules_eff]; [apply rstep_refl|].
+  intros fa fp l rs. induction rs as [|x rs IH]; intros r off at_ a; cbn [rules_eff]; [apply rstep_refl|].
   eapply rstep_trans; [apply rstep_rule_eff | apply IH].
 Qed.
 
 (* every rule block's name is a rule at the end *)
-Lemma rules_eff_has_rule : forall fa l rs r off at_ a x, In x rs ->
-  has_rule (rules_eff fa l r off at_ rs a) (ar_name x) = true.
+Lemma rules_eff_has_rule : forall fa fp l rs r off at_ a x, In x rs ->
+  has_rule (rules_eff fa fp l r off at_ rs a) (ar_name x) = true.
 Proof.
-  intros fa l rs. induction rs as [|y rs IH]; intros r off at_ a x Hi; [destruct Hi|].
+  intros fa fp l rs. induction rs as [|y rs IH]; intros r off at_ a x Hi; [destruct Hi|].
   cbn [rules_eff]. destruct Hi as [Hi|Hi].
-  - subst y. apply (rstep_rules_eff fa l rs (S r) _ at_ _).
-    unfold rule_eff. apply (rstep_prods_eff fa (rlay_of l r) (ar_name x) (ar_prods x) 0 _ _).
+  - subst y. apply (rstep_rules_eff fa fp l rs (S r) _ at_ _).
+    unfold rule_eff. apply (rstep_prods_eff fa fp (rlay_of l r) (ar_name x) (ar_prods x) 0 _ _).
     apply rule_head_has_rule.
   - apply IH. exact Hi.
 Qed.
 
 (* the start rule *)
-Lemma rules_eff_start : forall fa l rs r off at_ a, rs <> [] ->
-  (forall s, a_start a = Some s -> a_start (rules_eff fa l r off at_ rs a) = Some s) /\
-  (a_start a = None -> exists x sp, In x rs /\ a_start (rules_eff fa l r off at_ rs a) = Some (ar_name x, sp)).
+Lemma rules_eff_start : forall fa fp l rs r off at_ a, rs <> [] ->
+  (forall s, a_start a = Some s -> a_start (rules_eff fa fp l r off at_ rs a) = Some s) /\
+  (a_start a = None -> exists x sp, In x rs /\ a_start (rules_eff fa fp l r off at_ rs a) = Some (ar_name x, sp)).
 Proof.
-  intros fa l rs r off at_ a Hne. split.
+  intros fa fp l rs r off at_ a Hne. split.
   - apply rstep_rules_eff.
   - intros Hn. destruct rs as [|x rs]; [congruence|]. cbn [rules_eff].
     destruct (rule_head_fields off (rule_at_ at_ x) (ar_name x) a) as [_ [_ [_ [_ [_ [_ [Hs _]]]]]]].
     destruct (Hs Hn) as [sp Hsp]. exists x, sp. split; [left; reflexivity|].
-    apply (rstep_rules_eff fa l rs (S r) _ at_ _). unfold rule_eff.
-    apply (rstep_prods_eff fa (rlay_of l r) (ar_name x) (ar_prods x) 0 _ _). exact Hsp.
+    apply (rstep_rules_eff fa fp l rs (S r) _ at_ _). unfold rule_eff.
+    apply (rstep_prods_eff fa fp (rlay_of l r) (ar_name x) (ar_prods x) 0 _ _). exact Hsp.
 Qed.
 
 (* ---- the tokens the rules use ------------------------------------------------ *)
@@ -586,10 +586,10 @@ Proof.
     destruct (sym_q pl k s); [exact Hk | eapply knows_grows; [apply grows_tokens_insert | exact Hk] ..].
 Qed.
 
-Lemma prod_eff_toks : forall fa pl rn off p a n,
-  wf_prod D pl p -> knows a -> atoks p n -> In n (a_tokens (prod_eff fa pl rn off p a)).
+Lemma prod_eff_toks : forall fa fp pl rn off p a n,
+  wf_prod D pl p -> knows a -> atoks p n -> In n (a_tokens (prod_eff fa fp pl rn off p a)).
 Proof.
-  intros fa pl rn off p a n [Hw _] Hk Hn. unfold prod_eff. cbv zeta.
+  intros fa fp pl rn off p a n [Hw _] Hk Hn. unfold prod_eff. cbv zeta.
   apply (grows_add_prod_t _ rn _ _ _ _).
   destruct Hn as [Hn|Hn].
   - assert (H : In n (a_tokens (syms_ins pl 0 (prod_o0 pl off p) (ap_syms p) a)))
@@ -598,33 +598,33 @@ Proof.
   - rewrite Hn. apply tokens_insert_self.
 Qed.
 
-Lemma prods_eff_toks : forall fa rl rn ps pi off a p n,
+Lemma prods_eff_toks : forall fa fp rl rn ps pi off a p n,
   wf_prods D rl pi ps -> knows a -> In p ps -> atoks p n ->
-  In n (a_tokens (prods_eff fa rl rn pi off ps a)).
+  In n (a_tokens (prods_eff fa fp rl rn pi off ps a)).
 Proof.
-  intros fa rl rn ps. induction ps as [|q ps IH]; intros pi off a p n Hw Hk Hi Hn; [destruct Hi|].
+  intros fa fp rl rn ps. induction ps as [|q ps IH]; intros pi off a p n Hw Hk Hi Hn; [destruct Hi|].
   cbn [prods_eff]. cbn [wf_prods] in Hw. destruct Hw as [Hq Hw]. destruct Hi as [Hi|Hi].
-  - subst q. apply (rstep_prods_eff fa rl rn ps (S pi) _ _). apply prod_eff_toks; assumption.
+  - subst q. apply (rstep_prods_eff fa fp rl rn ps (S pi) _ _). apply prod_eff_toks; assumption.
   - apply (IH (S pi) _ _ p n Hw); [|exact Hi|exact Hn].
     eapply knows_grows; [apply rstep_prod_eff | exact Hk].
 Qed.
 
-Lemma rule_eff_toks : forall fa rl off at_ r a p n,
+Lemma rule_eff_toks : forall fa fp rl off at_ r a p n,
   wf_rule D rl r -> knows a -> In p (ar_prods r) -> atoks p n ->
-  In n (a_tokens (rule_eff fa rl off at_ r a)).
+  In n (a_tokens (rule_eff fa fp rl off at_ r a)).
 Proof.
-  intros fa rl off at_ r a p n [_ [_ [_ [_ [Hw _]]]]] Hk Hi Hn. unfold rule_eff.
-  apply (prods_eff_toks fa rl (ar_name r) (ar_prods r) 0 _ _ p n Hw); [|exact Hi|exact Hn].
+  intros fa fp rl off at_ r a p n [_ [_ [_ [_ [Hw _]]]]] Hk Hi Hn. unfold rule_eff.
+  apply (prods_eff_toks fa fp rl (ar_name r) (ar_prods r) 0 _ _ p n Hw); [|exact Hi|exact Hn].
   eapply knows_grows; [apply rstep_rule_head | exact Hk].
 Qed.
 
-Lemma rules_eff_toks : forall fa l rs r off at_ a x p n,
+Lemma rules_eff_toks : forall fa fp l rs r off at_ a x p n,
   wf_rules D l r rs -> knows a -> In x rs -> In p (ar_prods x) -> atoks p n ->
-  In n (a_tokens (rules_eff fa l r off at_ rs a)).
+  In n (a_tokens (rules_eff fa fp l r off at_ rs a)).
 Proof.
-  intros fa l rs. induction rs as [|y rs IH]; intros r off at_ a x p n Hw Hk Hi Hp Hn; [destruct Hi|].
+  intros fa fp l rs. induction rs as [|y rs IH]; intros r off at_ a x p n Hw Hk Hi Hp Hn; [destruct Hi|].
   cbn [rules_eff]. cbn [wf_rules] in Hw. destruct Hw as [Hy Hw]. destruct Hi as [Hi|Hi].
-  - subst y. apply (rstep_rules_eff fa l rs (S r) _ at_ _). eapply rule_eff_toks; eassumption.
+  - subst y. apply (rstep_rules_eff fa fp l rs (S r) _ at_ _). eapply rule_eff_toks; eassumption.
   - apply (IH (S r) _ at_ _ x p n Hw); [|exact Hi|exact Hp|exact Hn].
     eapply knows_grows; [apply rstep_rule_eff | exact Hk].
 Qed.
@@ -690,9 +690,9 @@ Proof.
   - apply Forall_app. split; [exact H2 | constructor; [exact Hok | constructor]].
 Qed.
 
-Lemma pinv_prod_eff : forall fa pl rn off p a, pinv a -> okap p -> pinv (prod_eff fa pl rn off p a).
+Lemma pinv_prod_eff : forall fa fp pl rn off p a, pinv a -> okap p -> pinv (prod_eff fa fp pl rn off p a).
 Proof.
-  intros fa pl rn off p a H [O1 [O2 O3]]. unfold prod_eff. cbv zeta. apply pinv_add_prod_t.
+  intros fa fp pl rn off p a H [O1 [O2 O3]]. unfold prod_eff. cbv zeta. apply pinv_add_prod_t.
   - destruct (syms_ins_frame pl (ap_syms p) 0 (prod_o0 pl off p) a) as [Hr [Hp _]].
     apply (pinv_same a); [| |exact H];
       destruct (ap_prec p); rewrite ?tokens_insert_rules, ?tokens_insert_prods; assumption.
@@ -702,10 +702,10 @@ Proof.
     + exact O3.
 Qed.
 
-Lemma pinv_prods_eff : forall fa rl rn ps pi off a,
-  pinv a -> (forall p, In p ps -> okap p) -> pinv (prods_eff fa rl rn pi off ps a).
+Lemma pinv_prods_eff : forall fa fp rl rn ps pi off a,
+  pinv a -> (forall p, In p ps -> okap p) -> pinv (prods_eff fa fp rl rn pi off ps a).
 Proof.
-  intros fa rl rn ps. induction ps as [|p ps IH]; intros pi off a H Ho; cbn [prods_eff]; [exact H|].
+  intros fa fp rl rn ps. induction ps as [|p ps IH]; intros pi off a H Ho; cbn [prods_eff]; [exact H|].
   apply IH.
   - apply pinv_prod_eff; [exact H | apply Ho; left; reflexivity].
   - intros q Hq. apply Ho. right. exact Hq.
@@ -720,11 +720,11 @@ Proof.
   apply rules_insert_pidx; [reflexivity | exact H1].
 Qed.
 
-Lemma pinv_rules_eff : forall fa l rs r off at_ a,
+Lemma pinv_rules_eff : forall fa fp l rs r off at_ a,
   pinv a -> (forall x p, In x rs -> In p (ar_prods x) -> okap p) ->
-  pinv (rules_eff fa l r off at_ rs a).
+  pinv (rules_eff fa fp l r off at_ rs a).
 Proof.
-  intros fa l rs. induction rs as [|x rs IH]; intros r off at_ a H Ho; cbn [rules_eff]; [exact H|].
+  intros fa fp l rs. induction rs as [|x rs IH]; intros r off at_ a H Ho; cbn [rules_eff]; [exact H|].
   apply IH.
   - unfold rule_eff. apply pinv_prods_eff; [apply pinv_rule_head; exact H|].
     intros p Hp. apply (Ho x p); [left; reflexivity | exact Hp].
@@ -931,7 +931,7 @@ Qed.
 (* ======================================================================== *)
 Lemma validation_clean : validation_clean_stmt.
 Proof.
-  intros yk fa l ag Hag Hl.
+  intros yk fa fp l ag Hag Hl.
   destruct Hag as [Hs1 [_ [_ [_ [_ [_ [Hne [Hst [Hrefs [Hprec [Hepp [_ [_ [_ [_ [_ [_ [_ [Heur Heut]]]]]]]]]]]]]]]]]]].
   destruct Hl as [_ [_ [_ [Hwr _]]]].
   unfold ast_of.
@@ -940,10 +940,10 @@ Proof.
   rewrite Hprog. clear Hprog.
   set (A0 := decls_eff l 0 (decls_off l) 0 (ag_decls ag) ast_new).
   set (AT := actiont_of (gat_of l ag)).
-  set (A := rules_eff fa l 0 (rules_off l ag) AT (ag_rules ag) A0).
+  set (A := rules_eff fa fp l 0 (rules_off l ag) AT (ag_rules ag) A0).
   destruct (decls_eff_facts (ag_decls ag) l 0 (decls_off l) 0 ast_new) as [_ [D1 [D2 [D3 [D4 D5]]]]].
   fold A0 in D1, D2, D3, D4, D5. cbn [a_rules a_prods a_expect_unused a_epp a_start ast_new map app] in D1, D2, D3, D4, D5.
-  pose proof (rstep_rules_eff fa l (ag_rules ag) 0 (rules_off l ag) AT A0) as [G [R1 [R2 [R3 R4]]]].
+  pose proof (rstep_rules_eff fa fp l (ag_rules ag) 0 (rules_off l ag) AT A0) as [G [R1 [R2 [R3 R4]]]].
   fold A in G, R1, R2, R3, R4.
   (* names *)
   assert (HRN : forall n, In n (map ar_name (ag_rules ag)) -> has_rule A n = true).
@@ -972,7 +972,7 @@ Proof.
   { intros n Hn. apply Htok0. apply mem_str_in. exact Hn. }
   assert (Hrt : forall x p t, In x (ag_rules ag) -> In p (ar_prods x) -> atoks p t -> has_token A t = true).
   { intros x p t Hx Hp Ht. apply has_token_iff.
-    apply (rules_eff_toks (declared_b ag) fa l (ag_rules ag) 0 _ AT A0 x p t Hwr Hk0 Hx Hp Ht). }
+    apply (rules_eff_toks (declared_b ag) fa fp l (ag_rules ag) 0 _ AT A0 x p t Hwr Hk0 Hx Hp Ht). }
   assert (HTK : forall t, In t (known_toks ag) -> has_token A t = true).
   { intros t Ht. unfold known_toks in Ht. apply in_app_or in Ht. destruct Ht as [Ht|Ht].
     - apply has_token_iff. apply G. apply Htok0. exact Ht.
@@ -994,7 +994,7 @@ Proof.
   destruct HP as [HP1 HP2].
   (* the start rule *)
   assert (HS : exists s sp, a_start A = Some (s, sp) /\ has_rule A s = true).
-  { destruct (rules_eff_start fa l (ag_rules ag) 0 (rules_off l ag) AT A0 Hne) as [S1 S2]. fold A in S1, S2.
+  { destruct (rules_eff_start fa fp l (ag_rules ag) 0 (rules_off l ag) AT A0 Hne) as [S1 S2]. fold A in S1, S2.
     destruct D5 as [D5|[n [sp [Hi D5]]]].
     - destruct (S2 D5) as [x [sp [Hx Hs]]]. exists (ar_name x), sp. split; [exact Hs|].
       apply HRN. apply in_map. exact Hx.
